@@ -126,7 +126,7 @@ class NoiselessDetector(Detector):
         if self.subsamping > 1:
             power = subsample_field(power, subsampling=self.subsamping, new_grid=self.detector_grid, statistic='sum')
 
-        self.accumulated_charge += power * dt * weight
+        self.accumulated_charge = self.accumulated_charge + power * dt * weight
 
     def read_out(self):
         '''Reads out the detector.
@@ -235,10 +235,10 @@ class NoisyDetector(Detector):
         if not hasattr(power, 'grid'):
             power = Field(np.asarray(power), self.input_grid)
 
-        self.accumulated_charge += subsample_field(power, subsampling=self.subsamping, new_grid=self.detector_grid, statistic='sum') * dt * weight
+        self.accumulated_charge = self.accumulated_charge + subsample_field(power, subsampling=self.subsamping, new_grid=self.detector_grid, statistic='sum') * dt * weight
 
         # Adding the generated dark current.
-        self.accumulated_charge += self.dark_current_rate * dt * weight
+        self.accumulated_charge = self.accumulated_charge + self.dark_current_rate * dt * weight
 
     def read_out(self):
         '''Reads out the detector.
@@ -264,10 +264,10 @@ class NoisyDetector(Detector):
             output_field = large_poisson(output_field, thresh=1e6)
 
         # Adding flat field errors.
-        output_field *= self.flat_field
+        output_field = output_field * self.flat_field
 
         # Adding read-out noise.
-        output_field += np.random.normal(loc=0, scale=self.read_noise, size=output_field.size)
+        output_field = output_field + np.random.normal(loc=0, scale=self.read_noise, size=output_field.size)
 
         # Reset detector
         self.accumulated_charge = 0
